@@ -9,7 +9,7 @@
    [run_word], [finish], [all_good] are the definitions of C09_Model.v that are
    extracted and run against the library. *)
 Require Import List Bool Arith.
-Require Import BFL.C09_Model BFL.C09_Proofs BFL.C09_Regress.
+Require Import BFL.C09_Model BFL.C09_Proofs BFL.C09_Progress BFL.C09_Regress.
 Import ListNotations.
 
 (* no filtering step executes before run is first requested *)
@@ -31,6 +31,23 @@ Theorem C09_reset_honoured c post seg k suf :
   reachable c -> c_trace c = post ++ seg ++ ECmd k :: suf -> (k = Reset \/ k = Reboot) ->
   no_init_exit seg -> count_steps seg <= 1.
 Proof. exact (reset_honoured c post seg k suf). Qed.
+
+(* ... and it IS honoured by a new epoch: with reset_ up (which is what a pending reset/reboot
+   means inside an epoch, second statement), teardown not requested, the thread left alone with
+   run_condition() = true enters initialization_step() again - or, if run_ is down (reboot),
+   blocks waiting for run - within 17 own moves, starting at most one further step *)
+Theorem C09_reset_reaches_new_epoch c :
+  c_rst c = true -> c_td c = false -> c_mid c = false -> in_loop (c_pc c) = true ->
+  exists c' k, run_until_init 20 c 0 = (c', k)
+  /\ run_moves c (repeat (MThread true) k) = Some c' /\ k <= honour_bound
+  /\ exists post, c_trace c' = post ++ c_trace c /\ count_steps post <= 1
+     /\ ((c_run c = true /\ c_pc c' = PInitBody /\ exists post', post = EInit :: post')
+         \/ (c_run c = false /\ c_pc c' = PSleep /\ c_woken c' = false /\ count_init_step post <= 1)).
+Proof. exact (reset_progress c). Qed.
+
+Theorem C09_pending_reset_is_visible c :
+  reachable c -> pend (c_trace c) <> None -> inep (c_pc c) = true -> c_rst c = true.
+Proof. exact (pending_reset_flag c). Qed.
 
 (* after reboot, as long as neither run nor teardown is requested, the thread performs at
    most ONE more initialisation-or-step in total (the one it was already committed to) *)
@@ -168,6 +185,8 @@ Proof. split; [apply run_word_reachable; constructor | vm_compute; repeat split;
 Print Assumptions C09_no_step_before_run.
 Print Assumptions C09_epochs.
 Print Assumptions C09_reset_honoured.
+Print Assumptions C09_reset_reaches_new_epoch.
+Print Assumptions C09_pending_reset_is_visible.
 Print Assumptions C09_reboot_waits_for_run.
 Print Assumptions C09_teardown_one_step.
 Print Assumptions C09_exited_quiescent.
